@@ -3,6 +3,8 @@
 package harness
 
 import (
+	"os"
+	"math"
 	"bytes"
 	"compress/gzip"
 	"fmt"
@@ -29,6 +31,11 @@ func richPool(r *simrt.Run, n int) []Val {
 	bytess := []string{"", "\x00\xff\x80", "ab\"c\\", "\n\r\t"}
 	ints := []int64{0, 1, -1, 7, 42, 9223372036854775807, -9223372036854775808, 65792}
 	floats := []float64{0.5, -2.25, 3.14159, 1e-7, 1.5e300, 123456.789}
+	if os.Getenv("MGSIM_C19_NONFINITE") != "" {
+		// not part of the registered workload: non-finite floats have no
+		// textual form (open finding non-finite-floats-do-not-reload)
+		floats = append(floats, math.NaN(), math.Inf(1), math.Inf(-1))
+	}
 	times := []int64{0, 1, 1700000000123456789, -86400000000000}
 	durs := []int64{0, 1, 1500000000, 3600000000000, -1000000}
 	// now and then one string whose printed form is longer than the 64 KiB
@@ -558,5 +565,31 @@ func diffCounts(want, got map[string]int) string {
 }
 
 func c19Probes() []Probe {
-	return nil
+	roundTrip := func(v ast.Constant) Outcome {
+		src := factstore.NewSimpleInMemoryStore()
+		src.Add(ast.NewAtom("p", v))
+		var buf bytes.Buffer
+		if err := (factstore.SimpleColumn{}).WriteTo(src, &buf); err != nil {
+			return Outcome{} // refusing to write is a report, not a silent loss
+		}
+		back := factstore.NewSimpleInMemoryStore()
+		if err := (factstore.SimpleColumn{}).ReadInto(bytes.NewReader(buf.Bytes()), back); err != nil {
+			return Violation("C19/reload-error", "p(%v) was written without error as %q and cannot be read back: %v", v, buf.String(), err)
+		}
+		if !back.Contains(ast.NewAtom("p", v)) {
+			return Violation("C19/reload-mismatch", "p(%v) was written as %q and reloads to a different fact", v, buf.String())
+		}
+		return Outcome{}
+	}
+	return []Probe{{
+		Key:  "non-finite-floats-do-not-reload",
+		Desc: "a float that is NaN or infinite is printed as NaN / +Inf / -Inf, which the parser does not read as a float",
+		Run: func(r *simrt.Run) Outcome {
+			for _, f := range []float64{math.NaN(), math.Inf(1), math.Inf(-1)} {
+				if o := roundTrip(ast.Float64(f)); o.Failed() {
+					return o
+				}
+			}
+			return Outcome{}
+		}}}
 }
